@@ -520,6 +520,53 @@ pub fn payload_for_codewords(v: usize, e: usize, data: &[u8]) -> Vec<u8> {
     (0..len).map(|i| (0..8).fold(0u8, |acc, j| (acc << 1) | bit(hdr + 8 * i + j))).collect()
 }
 
+/// The byte-mode payload of full capacity that makes mask candidate `k` of version `v` level `e` show, on every
+/// module that belongs to a DATA codeword, the value `wanted(row, col)` (None = pseudo-random, determined by `seed`).
+/// Modules of EC codewords and the first header bits cannot be chosen. Lets a selection instance be designed: a
+/// candidate that looks random except for a planted feature.
+pub fn payload_for_candidate(v: usize, e: usize, k: usize, seed: u64, wanted: &dyn Fn(usize, usize) -> Option<bool>) -> Vec<u8> {
+    let g = r::geo_of(v);
+    let total = r::total_codewords(v);
+    let dc = r::data_codewords(v, e);
+    let mut cw = vec![0u8; total];
+    for (i, &(y, x)) in g.zigzag.iter().enumerate() {
+        if i / 8 >= dc {
+            continue;
+        }
+        let w = wanted(y, x).unwrap_or_else(|| {
+            // splitmix64 of (seed, position)
+            let mut z = seed.wrapping_mul(0xD6E8_FEB8_6659_FD93).wrapping_add(((y * 177 + x + 1) as u64).wrapping_mul(0x9E37_79B9_7F4A_7C15));
+            z = (z ^ (z >> 30)).wrapping_mul(0xBF58_476D_1CE4_E5B9);
+            z = (z ^ (z >> 27)).wrapping_mul(0x94D0_49BB_1331_11EB);
+            z ^= z >> 31;
+            (z >> 17) & 1 == 1
+        });
+        if w ^ r::maskbit(k, y, x) {
+            cw[i / 8] |= 1 << (7 - i % 8);
+        }
+    }
+    let ec = r::ECPB[e][v];
+    let blocks = r::deinterleave(&cw, v, e);
+    let mut data: Vec<u8> = vec![];
+    for b in &blocks {
+        data.extend_from_slice(&b[..b.len() - ec]);
+    }
+    payload_for_codewords(v, e, &data)
+}
+
+/// is (row, col) a module of a data codeword of (v, e)?
+pub fn data_codeword_modules(v: usize, e: usize) -> Vec<bool> {
+    let g = r::geo_of(v);
+    let dc = r::data_codewords(v, e);
+    let mut m = vec![false; g.n * g.n];
+    for (i, &(y, x)) in g.zigzag.iter().enumerate() {
+        if i / 8 < dc && i >= 24 {
+            m[y * g.n + x] = true;
+        }
+    }
+    m
+}
+
 /// start offset and length of every data block of (v, e) in the sequence of data codewords
 pub fn block_spans(v: usize, e: usize) -> Vec<(usize, usize)> {
     let (short, sl, long) = r::block_layout(v, e);
